@@ -36,7 +36,7 @@ ASSUMPTIONS = ["(c) waits link_timeout + check period + one probe cycle of "
                "seconds"]
 REQUIRED = ["probes", "graphs", "graphs_with_cycles", "graphs_with_oneway",
             "histories", "changes_judged", "flood_probes", "link_events",
-            "both_directions_one_sweep"]
+            "both_directions_one_sweep", "quiet_periods_checked"]
 TIMEOUT = {"quick": 1500, "thorough": 10800}
 
 _st = {}
@@ -310,13 +310,18 @@ TOPOS = {
 }
 
 
-def launch_components (w):
-  if _st.get("launched"): return
+def launch_components (w, link_timeout=None):
+  if _st.get("launched"):
+    if _st.get("lt") != link_timeout:
+      raise simnet.Inconclusive("one discovery configuration per process")
+    return
+  _st["lt"] = link_timeout
   import pox.openflow.discovery as D
   import pox.openflow.spanning_tree as ST
   if w.core.hasComponent("openflow_discovery"):
     raise simnet.Inconclusive("stub discovery registered in this process")
-  D.launch()
+  if link_timeout: D.launch(link_timeout=link_timeout)
+  else: D.launch()
   ST.launch()
   w.run()
   _st["launched"] = True
@@ -327,7 +332,7 @@ def launch_components (w):
 
 def run_history (case, rep):
   w = world()
-  launch_components(w)
+  launch_components(w, case.get("link_timeout"))
   def fire (key, what):
     rep.violation("C19 e2e: " + key, what, case)
   core = w.core
@@ -343,10 +348,27 @@ def run_history (case, rep):
       disc.send_cycle_time + 3
   nt = False
   try:
+    def spurious (since, allowed, when):
+      """A link the harness left alone must not be announced removed."""
+      for added, l in _st["events"][since:]:
+        if added or (l[0] not in mine and l[2] not in mine): continue
+        if tuple(l) not in allowed:
+          fire("a live, continuously probed link was announced removed",
+               "%s: %r" % (when, l))
+          return True
+      return False
     topo.settle(SETTLE)
     if not judge(topo, fire, rep, "initial discovery", mine, ev0): return True
+    # nothing changes for a while: nothing may be announced
+    mark = len(_st["events"])
+    topo.settle(2 * SETTLE)
+    rep.count("quiet_periods_checked")
+    if spurious(ev0, set(), "initial discovery and a quiet period"): return True
+    if not judge(topo, fire, rep, "after a quiet period", mine, ev0): return True
     for op in case["ops"]:
       k = op[0]
+      mark = len(_st["events"])
+      links_before = topo.directed_links()
       if k == "cut":                       # one direction of a link goes dark
         topo.up[(op[1], op[2])] = False
       elif k == "cut_both":
@@ -361,8 +383,10 @@ def run_history (case, rep):
       elif k == "up":
         if op[1] not in topo.sw: topo.connect(op[1])
       nt = True
+      gone = links_before - topo.directed_links()
       topo.settle(SETTLE)
       rep.count("changes_judged")
+      if spurious(mark, gone, "after %s" % (op,)): return True
       if not judge(topo, fire, rep, "after %s" % (op,), mine, ev0): return True
   except Exception:
     fire("exception", traceback.format_exc()[-800:])
@@ -562,7 +586,7 @@ def gen_graphs (spec, rng):
       yield dict(kind="graph", links=links)
 
 
-def gen_histories (rng, n):
+def gen_histories (rng, n, link_timeout=None):
   names = sorted(TOPOS)
   for _ in range(n):
     tname = rng.choice(names)
@@ -584,7 +608,9 @@ def gen_histories (rng, n):
         ops.append(["down", rng.randrange(nsw)])
       else:
         ops.append(["up", rng.randrange(nsw)])
-    yield dict(kind="e2e", topo=tname, ops=ops)
+    case = dict(kind="e2e", topo=tname, ops=ops)
+    if link_timeout: case["link_timeout"] = link_timeout
+    yield case
 
 
 def plan (tier, seed):
@@ -593,13 +619,15 @@ def plan (tier, seed):
             [dict(mode="graph", g="s3p2", shard=i, nshards=2) for i in range(2)] +
             [dict(mode="graph", g="s4p2_sample", n=6000, sub=i) for i in range(2)] +
             [dict(mode="graph", g="rand", n=3000, sub=i) for i in range(2)] +
-            [dict(mode="e2e", n=30, sub=i) for i in range(9)])
+            [dict(mode="e2e", n=30, sub=i, lt=[None, 2, None, 4, None, 20, None, 3, None][i])
+             for i in range(9)])
   return ([dict(mode="probe", n=200000, sub=0)] +
           [dict(mode="graph", g="s3p2", shard=0, nshards=1)] +
           [dict(mode="graph", g="s4p2", shard=i, nshards=96) for i in range(24)] +
           [dict(mode="graph", g="s5p1", shard=i, nshards=8) for i in range(8)] +
-          [dict(mode="graph", g="rand", n=150000, sub=i) for i in range(8)] +
-          [dict(mode="e2e", n=60, sub=i) for i in range(24)])
+          [dict(mode="graph", g="rand", n=300000, sub=i) for i in range(16)] +
+          [dict(mode="e2e", n=200, sub=i, lt=[None, 2, None, 4, 20, 3][i % 6])
+           for i in range(48)])
 
 
 def run (spec, rep):
@@ -608,7 +636,7 @@ def run (spec, rep):
                                             spec.get("sub", spec.get("shard", 0))))
   if spec["mode"] == "probe": g = gen_probes(rng, spec["n"])
   elif spec["mode"] == "graph": g = gen_graphs(spec, rng)
-  else: g = gen_histories(rng, spec["n"])
+  else: g = gen_histories(rng, spec["n"], spec.get("lt"))
   first = True
   for case in g:
     do_case(case, rep)
